@@ -712,6 +712,25 @@ ben('b-txn-rollback-local', ['C10', 'C12', 'C15'], (txn,
         self.active.store(false, Ordering::Relaxed);
         Ok(())'''), 'log line with the number of discarded records')
 
+ben('b-cache-batch-put-empty', ['C14', 'C16'], (cache,
+    '''    pub async fn batch_put(&self, records: &[DbRecord]) {
+        self.clean().await;
+''',
+    '''    pub async fn batch_put(&self, records: &[DbRecord]) {
+        if records.is_empty() {
+            return;
+        }
+        self.clean().await;
+'''), 'early return for an empty batch')
+ben('b-txn-batch-set-empty', ['C10', 'C15', 'C16'], (txn,
+    '''    pub fn batch_set(&self, records: &[DbRecord]) {
+        for record in records {''',
+    '''    pub fn batch_set(&self, records: &[DbRecord]) {
+        if records.is_empty() {
+            return;
+        }
+        for record in records {'''), 'early return for an empty batch')
+
 out = os.path.join(os.path.dirname(os.path.abspath(__file__)), 'benign.json')
 json.dump({'benign': B}, open(out, 'w'), indent=1)
 print('%d benign variants -> %s' % (len(B), out))
